@@ -768,6 +768,13 @@ func ruleEveryFeeder(w *World, r *Run, rule string) {
 		return true
 	}
 	pairOK := func(s Summary, F, c *Term) (bool, string) {
+		// the values themselves, when the collection's contents are known on the path
+		if F.Kind == "call" && F.Name == fnFeedFunc {
+			if pairFromOneEntry(c, F) {
+				return true, "1"
+			}
+			return false, "the feeder " + short(F.String()) + " is run with the log " + short(c.String()) + ", which is not built from the same configuration entry"
+		}
 		var it *Term
 		anySub(F, func(x *Term) bool {
 			if x.Kind == "rangeiter" && it == nil {
